@@ -13,7 +13,8 @@
        units | get{name} | iter | header | json | add_column{name,unit?,dunit?,fmt?} | set_units{map}
        | set_all_units{units} | set_col_unit{name,unit} | rewrap{units?,strict?} | finalize{srcs,strict}
        | make{units?,unit_map?,strict} | peek
-     rewrap / finalize / make replace the current info when they succeed.
+     every step may carry "t": the index of the table it addresses (default: the newest).  A successful
+     rewrap / finalize / make appends a new table (a sibling with its own register); the old ones stay alive.
 -/
 import Drv.Base
 import PdtModel.Model.Meta
@@ -114,69 +115,81 @@ def makeOfJson (j : Json) (f : Frame) : Except String (Except Err Info) := do
   let strict ← getBool j "strict"
   pure (make f us um strict)
 
-/-- one step: new current info and the answer -/
-def metaStep (i : Info) (j : Json) : Except String (Info × Json) := do
+/-- outcome of one step on the addressed info: the info after the step, optionally a newly created info
+    (re-wrap, derived frame, construction: a *sibling* with its own register), and the answer -/
+def metaStep (i : Info) (j : Json) : Except String (Info × Option Info × Json) := do
   let k ← (← j.getObjVal? "k").getStr?
   let f ← frameOfJson (← j.getObjVal? "frame")
   match k with
-  | "peek" => pure (i, Json.null)
+  | "peek" => pure (i, none, Json.null)
   | "units" =>
     let (i1, r) := tableUnits i f
-    pure (i1, match r with | .ok us => arr (us.map str) | .error e => metaExc e)
+    pure (i1, none, match r with | .ok us => arr (us.map str) | .error e => metaExc e)
   | "get" =>
     let n ← getStr j "name"
     let (i1, r) := tableGetUnit i f n
-    pure (i1, match r with | .ok u => str u | .error e => metaExc e)
+    pure (i1, none, match r with | .ok u => str u | .error e => metaExc e)
   | "iter" =>
     let (i1, r) := tableIter i f
-    pure (i1, match r with | .ok ps => pairsToJson ps | .error e => metaExc e)
+    pure (i1, none, match r with | .ok ps => pairsToJson ps | .error e => metaExc e)
   | "header" =>
     let (i1, r) := writerHeader i f
-    pure (i1, match r with
+    pure (i1, none, match r with
       | .ok (ns, us, fs) => Json.mkObj [("names", arr (ns.map str)), ("units", arr (us.map str)),
                                          ("fmts", arr (fs.map optStrToJson))]
       | .error e => metaExc e)
   | "json" =>
     let (i1, r) := jsonPairs i f
-    pure (i1, match r with | .ok ps => pairsToJson ps | .error e => metaExc e)
+    pure (i1, none, match r with | .ok ps => pairsToJson ps | .error e => metaExc e)
   | "add_column" =>
     let n ← getStr j "name"
     let (i1, e) := addColumn i f n (← getOptStr j "unit") (← getOptStr j "dunit") (← getOptStr j "fmt")
-    pure (i1, optErrToJson e)
+    pure (i1, none, optErrToJson e)
   | "set_units" =>
     let m ← (← getArr j "map").mapM pairOfJson
     let (i1, e) := setUnits i f m
-    pure (i1, optErrToJson e)
+    pure (i1, none, optErrToJson e)
   | "set_all_units" =>
     let us ← (← getArr j "units").mapM strOfJson
     let (i1, e) := setAllUnits i f us
-    pure (i1, optErrToJson e)
+    pure (i1, none, optErrToJson e)
   | "set_col_unit" =>
     let (i1, e) := setColUnit i f (← getStr j "name") (← getStr j "unit")
-    pure (i1, optErrToJson e)
+    pure (i1, none, optErrToJson e)
   | "rewrap" =>
     let us ← getOptStrList j "units"
     let st ← getOptBool j "strict"
     match rewrap i f us st with
-    | (_, .ok i2) => pure (i2, Json.null)
-    | (i1, .error e) => pure (i1, metaExc e)
+    | (i1, .ok i2) => pure (i1, some i2, Json.null)
+    | (i1, .error e) => pure (i1, none, metaExc e)
   | "finalize" =>
     let srcs ← (← getArr j "srcs").mapM regOfJson
     let strict ← getBool j "strict"
     match finalize srcs strict f with
-    | .ok i2 => pure (i2, Json.null)
-    | .error e => pure (i, metaExc e)
+    | .ok i2 => pure (i, some i2, Json.null)
+    | .error e => pure (i, none, metaExc e)
   | "make" =>
     match ← makeOfJson j f with
-    | .ok i2 => pure (i2, Json.null)
-    | .error e => pure (i, metaExc e)
+    | .ok i2 => pure (i, some i2, Json.null)
+    | .error e => pure (i, none, metaExc e)
   | _ => throw s!"unknown meta step {k}"
 
-def metaSteps : Info → List Json → List Json → Except String (List Json)
+/-- the live tables of a history, each with its own info; a step addresses one by "t" (default: the newest);
+    a successful re-wrap / finalize / make appends a new table and the answer reports that new table -/
+def metaSteps : List Info → List Json → List Json → Except String (List Json)
   | _, [], acc => pure acc.reverse
-  | i, j :: js, acc => do
-    let (i1, a) ← metaStep i j
-    metaSteps i1 js (stepOut i1 a :: acc)
+  | infos, j :: js, acc => do
+    let t ← match j.getObjVal? "t" with
+      | .ok v => v.getNat?
+      | .error _ => pure (infos.length - 1)
+    match infos[t]? with
+    | none => throw s!"no table {t}"
+    | some i =>
+      let (i1, created, a) ← metaStep i j
+      let infos1 := infos.set t i1
+      match created with
+      | some i2 => metaSteps (infos1 ++ [i2]) js (stepOut i2 a :: acc)
+      | none => metaSteps infos1 js (stepOut i1 a :: acc)
 
 def handleMeta (op : String) (j : Json) : Option (Except String Json) :=
   match op with
@@ -204,7 +217,7 @@ def handleMeta (op : String) (j : Json) : Option (Except String Json) :=
     | .error e => pure (Json.mkObj [("init", metaExc e), ("steps", arr [])])
     | .ok i =>
       let steps ← getArr j "steps"
-      let outs ← metaSteps i steps []
+      let outs ← metaSteps [i] steps []
       pure (Json.mkObj [("init", stepOut i Json.null), ("steps", arr outs)])
   | _ => none
 
